@@ -12,6 +12,7 @@ import (
 	"regexp/syntax"
 	"sort"
 	"strings"
+	"time"
 
 	"github.com/RoaringBitmap/roaring/v2"
 	"github.com/grafana/regexp"
@@ -877,6 +878,46 @@ func nonUTF8Cases(w *gen.Writer) {
 	try("query", query.QToProto(&query.Branch{Pattern: bad}))
 }
 
+// enumCases: the value conversions that are not plain copies, against the Lean model (ZoektModel/C24/ApiModel.lean)
+func enumCases(w *gen.Writer, r *gen.Rand, n int) {
+	for fr := 0; fr < 256; fr++ { // every uint8
+		p := zoekt.FlushReason(fr).ToProto()
+		back := zoekt.FlushReasonFromProto(p)
+		w.Emit(gen.Case{In: fmt.Sprintf("flush %d", fr), Impl: fmt.Sprintf("%d %d", int32(p), uint8(back)), Class: "enum:flush", Nontrivial: fr == 1 || fr == 2 || fr == 4})
+	}
+	for p := -1; p < 8; p++ {
+		if p >= 0 {
+			w.Emit(gen.Case{In: fmt.Sprintf("flushfrom %d", p), Impl: fmt.Sprint(uint8(zoekt.FlushReasonFromProto(webserverv1.FlushReason(p)))), Class: "enum:flushfrom"})
+			lo := zoekt.ListOptionsFromProto(&webserverv1.ListOptions{Field: webserverv1.ListOptions_RepoListField(p)})
+			w.Emit(gen.Case{In: fmt.Sprintf("listfieldfrom %d", p), Impl: fmt.Sprint(int(lo.Field)), Class: "enum:listfieldfrom"})
+		}
+		lp := (&zoekt.ListOptions{Field: zoekt.RepoListField(p)}).ToProto()
+		back := zoekt.ListOptionsFromProto(lp)
+		w.Emit(gen.Case{In: fmt.Sprintf("listfield %d", p), Impl: fmt.Sprintf("%d %d", int32(lp.Field), int(back.Field)), Class: "enum:listfield", Nontrivial: p == 0 || p == 2})
+	}
+	for i := 0; i < n; i++ {
+		var d int64
+		switch r.Intn(6) {
+		case 0:
+			d = int64(r.U64())
+		case 1:
+			d = -int64(r.Intn(2000000000))
+		case 2:
+			d = []int64{0, 1, -1, 999999999, 1000000000, -999999999, -1000000000, 1<<63 - 1, -1 << 63}[r.Intn(9)]
+		default:
+			d = int64(r.Intn(2000000000)) * int64(r.Intn(1000))
+		}
+		o := zoekt.SearchOptions{MaxWallTime: time.Duration(d)}
+		p := o.ToProto()
+		back := zoekt.SearchOptionsFromProto(p)
+		w.Emit(gen.Case{In: fmt.Sprintf("duration %d", d), Impl: fmt.Sprintf("%d %d %d", p.MaxWallTime.Seconds, p.MaxWallTime.Nanos, int64(back.MaxWallTime)), Class: "enum:duration", Nontrivial: d < 0})
+		rank := uint16(r.U64())
+		rp := (&zoekt.Repository{Rank: rank}).ToProto()
+		rb := zoekt.RepositoryFromProto(rp)
+		w.Emit(gen.Case{In: fmt.Sprintf("rank %d", rank), Impl: fmt.Sprint(rb.Rank), Class: "enum:rank"})
+	}
+}
+
 // ---------------------------------------------------------------- corpus / replay / main
 
 type stored struct {
@@ -983,5 +1024,6 @@ func main() {
 	}
 	apiCases(w, r, f.N(150, 5000))
 	nonUTF8Cases(w)
+	enumCases(w, r, f.N(200, 5000))
 	endToEnd(w, r, f)
 }
